@@ -129,6 +129,9 @@ impl PngData {
                     }
                     if chunk.name == *b"fcTL" || chunk.name == *b"fdAT" {
                         // Validate the sequence number
+                        if chunk.data.len() < 4 {
+                            return Err(PngError::TruncatedData);
+                        }
                         if read_be_u32(&chunk.data[0..4]) != sequence_number {
                             return Err(PngError::APNGOutOfOrder);
                         }
